@@ -379,6 +379,22 @@ def _projection(case):
     viol = []
     if p2.shape != ref.shape or np.abs(p2 - ref).max() > 1e-4 * max(1.0, np.abs(ref).max()):
         viol.append((f"{ID}|projection|not-the-z-projection|nmol={'1' if nmol == 1 else '>1'}" + ("" if not deep and scale == 1.0 else "|deep" if deep else "|scale"), f"{nmol} molecule(s) (z up to {pos[:, 0].max():.1f} px, scale {scale}), template {ts}, order {order}: simulate_2d mass {p2.sum():.3f}, z-projection of simulate mass {ref.sum():.3f}, max difference {np.abs(p2 - ref).max():.3g}"))
+    # the coloured simulation pastes the same footprints, normalised to the template's value range and weighted per channel:
+    # for a template whose minimum is 0 (orders 0 and 1: no spline coefficients) channel c is colour_c * simulate() / max(template)
+    if scale == 1.0 and not deep and order <= 1:
+        tm0 = tm.copy()
+        tm0.flat[0] = 0.0
+        simc = _sim(order, 1.0)
+        simc.add_molecules(Molecules(pos * scale, rot, features={"c": np.arange(nmol)}), tm0)  # (a callable colour map reads the feature row)
+        plain = np.asarray(simc.simulate((zsize,) + VOL[1:])).astype(np.float64)
+        colour = (1.0, 0.5, 0.25)
+        try:
+            col = np.asarray(simc.simulate((zsize,) + VOL[1:], colormap=lambda df: colour)).astype(np.float64)
+            wantc = np.stack([c_ * plain / float(tm0.max()) for c_ in colour], axis=0)
+            if col.shape != wantc.shape or np.abs(col - wantc).max() > 1e-5 * max(1.0, np.abs(wantc).max()):
+                viol.append((f"{ID}|simulate(colormap)|not-the-weighted-simulation|order={order}", f"{nmol} molecule(s), template {ts}: coloured simulation differs from colour * simulate() / max(template) by {np.abs(col - wantc).max() if col.shape == wantc.shape else col.shape:.3g}"))
+        except Exception as e:  # noqa
+            viol.append((f"{ID}|simulate(colormap)|raised-{type(e).__name__}|order={order}", str(e)[:200]))
     # simulate_projection with the plane axes (y, x) and the plane centred on the image centre is the same z-projection, and a plane
     # moved by whole pixels moves the picture by whole pixels.  Checked on grid-coincident poses (integer positions, odd
     # template, cube rotations), where every interpolation order is exact and nothing is truncated.
